@@ -1,6 +1,8 @@
 package main
 
 import (
+	"regexp"
+	"os"
 	"encoding/json"
 	"fmt"
 	"math/rand/v2"
@@ -18,10 +20,29 @@ import (
 // snapshots inside the few statements of the unrotated -> rotated hand-over.
 func genHandover(r *rand.Rand) *plan.Plan {
 	k := plan.Knobs{Sched: true, Procs: []int{1, 2, 4}[r.IntN(3)], PreemptPermille: []int{0, 20, 100}[r.IntN(3)]}
+	k.MaxDecisions = 600_000 // these histories take 10-60 k decisions; a task that never blocks is found sooner
 	// site delays: a per-run subset of lock / channel / fs sites holds its task back long enough for the
 	// other clients to run through whole operations (the classic way to open a hand-over window)
 	k.DelayPermille = []int{10, 30, 60}[r.IntN(3)]
 	k.DelayLen = []int{100, 400, 1500}[r.IntN(3)]
+	if r.IntN(2) == 0 {
+		// targeted instead of random: hold every task back inside one of the pieces of code in which a search
+		// chooses its segments and opens them, or in which a rotation hands a segment over
+		k.DelayPermille = 0
+		k.DelaySites = [][]string{
+			{"pkg/segment/metadata/"}, {"pkg/segment/writer/unrotatedquery.go"}, {"pkg/segment/query/segquery.go"},
+			{"pkg/segment/reader/segread/"}, {"pkg/segment/query/metadata/"}, {"pkg/segment/writer/segstore.go"},
+			{"pkg/segment/metadata/", "pkg/segment/writer/unrotatedquery.go"},
+			// readers only (site names start with the kind of the operation: R: read lock, W: write lock):
+			// a search is held at its snapshot of the unrotated / rotated tables while writers proceed
+			{"R:pkg/segment/writer/unrotatedquery.go"}, {"R:pkg/segment/metadata/"}, {"R:pkg/segment/writer/"},
+			{"R:pkg/segment/writer/unrotatedquery.go"}, {"R:pkg/segment/metadata/"},
+		}[r.IntN(12)]
+		k.DelayLen = []int{30, 100, 400}[r.IntN(3)]
+	}
+	if f := os.Getenv("VERIF_C11_DELAY_SITES"); f != "" {
+		k.DelayPermille, k.DelaySites = 0, strings.Split(f, ",") // development aid
+	}
 	if r.IntN(2) == 0 {
 		k.PQS = &boolF
 	}
@@ -51,9 +72,14 @@ func genHandover(r *rand.Rand) *plan.Plan {
 		}
 		inc.Ops = append(inc.Ops, plan.Op{Kind: "flush"})
 		var clients [][]plan.Op
-		clients = append(clients, []plan.Op{{Kind: "rotate"}})
+		// queries are admitted by a loop that polls every 10 ms of simulated time: the rotation is started at or
+		// next to such an instant, so that it runs while the searches choose and open their segments
+		clients = append(clients, []plan.Op{{Kind: "advance", DurMs: int64([]int{0, 9, 10, 10, 10, 11, 20, 20}[r.IntN(8)])}, {Kind: "rotate"}})
 		for c := 0; c < 2+r.IntN(3); c++ {
 			var ops []plan.Op
+			if r.IntN(2) == 0 {
+				ops = append(ops, plan.Op{Kind: "advance", DurMs: int64(r.IntN(12))})
+			}
 			for q := 0; q < 2+r.IntN(3); q++ {
 				ops = append(ops, plan.Op{Kind: "query", Index: names[r.IntN(len(names))], Text: "*", Start: qStart, End: qEnd, Size: 2000, Args: map[string]any{"includeNulls": true}})
 			}
@@ -185,7 +211,7 @@ func concurrentOracle(prop string, res *RunResult) []Violation {
 		if e := ir.Get("hang"); e != nil {
 			d = e.Err
 		}
-		return []Violation{{Sig: prop + ":hang", Msg: trimTo(d, 3000)}}
+		return []Violation{{Sig: prop + ":hang:" + ir.HangKind() + ":" + spinningTasks(d), Msg: trimTo(d, 3000)}}
 	default:
 		return []Violation{{Sig: prop + ":node-" + ab + ":" + ir.PanicSite(), Msg: trimTo(ir.Stderr, 2000)}}
 	}
@@ -339,7 +365,7 @@ func concurrentOracle(prop string, res *RunResult) []Violation {
 			}
 		}
 		if missing > 0 {
-			vs = append(vs, Violation{Sig: prop + ":flushed-event-not-returned", Msg: fmt.Sprintf("%s [%d,%d] on %s: %d events whose flush completed before the search began are missing (first %s); %d returned", s.where, s.iv.inv, s.iv.ret, s.index, missing, first, len(s.q.Records))})
+			vs = append(vs, Violation{Sig: prop + ":flushed-event-not-returned" + rotationRaceSite(ir), Msg: fmt.Sprintf("%s [%d,%d] on %s: %d events whose flush completed before the search began are missing (first %s); %d returned", s.where, s.iv.inv, s.iv.ret, s.index, missing, first, len(s.q.Records))})
 		}
 	}
 	return dedupV(vs)
@@ -437,4 +463,53 @@ func opKinds(p *plan.Plan) string {
 		sb.WriteString(" ")
 	}
 	return sb.String()
+}
+
+// rotationRaceSite names the place where a search lost a segment to a concurrent rotation, from the node's own
+// error log (the response carries no error): part of the signature, so that one recorded site does not hide
+// another way of losing flushed events.
+func rotationRaceSite(ir *IncResult) string {
+	end := ir.End()
+	if end == nil {
+		return ""
+	}
+	var logs map[string]int
+	_ = json.Unmarshal(end["error_logs"], &logs)
+	switch {
+	case logs["CheckMicroIndicesForUnrotated"] > 0:
+		return ":segment-rotated-before-unrotated-microindex-check"
+	case logs["applyAggregationsToResult"] > 0 || logs["RawSearchPQMResults"] > 0:
+		return ":segment-rotated-before-column-readers-opened"
+	}
+	return ""
+}
+
+var lineNoRe = regexp.MustCompile(`:[0-9]+`)
+
+// spinningTasks: the tasks that were runnable when the decision budget ran out, by task name without
+// line numbers (they never block: the loop that burns the budget).
+func spinningTasks(dump string) string {
+	seen := map[string]bool{}
+	for _, ln := range strings.Split(dump, "\n") {
+		if !strings.HasPrefix(ln, "task ") || !strings.Contains(ln, "state=runnable") {
+			continue
+		}
+		name, site := "", ""
+		if i := strings.IndexByte(ln, '"'); i >= 0 {
+			if j := strings.IndexByte(ln[i+1:], '"'); j >= 0 {
+				name = ln[i+1 : i+1+j]
+			}
+		}
+		if i := strings.Index(ln, "site="); i >= 0 {
+			site = strings.Fields(ln[i+5:] + " ")[0]
+		}
+		_ = site // the site at which the budget happened to run out varies along the loop: the task is the identity
+		seen[lineNoRe.ReplaceAllString(name, "")] = true
+	}
+	var out []string
+	for k := range seen {
+		out = append(out, k)
+	}
+	sort.Strings(out)
+	return strings.Join(out, ",")
 }
